@@ -188,6 +188,8 @@ def sensitivity(args):
                     missed += 1
                     continue
             for pid in props:
+                if os.environ.get("VERIF_ONLY_PROPS") and pid not in os.environ["VERIF_ONLY_PROPS"].split(","):
+                    continue
                 env = dict(os.environ)
                 env["VERIF_REPO"] = repo
                 env["VERIF_NO_EVIDENCE"] = "1"
@@ -245,6 +247,8 @@ def noalarm(args):
                 alarms += 1
                 continue
             for pid in meta["properties"]:
+                if os.environ.get("VERIF_ONLY_PROPS") and pid not in os.environ["VERIF_ONLY_PROPS"].split(","):
+                    continue
                 env = dict(os.environ, VERIF_REPO=repo, VERIF_NO_EVIDENCE="1")
                 t0 = time.time()
                 q = subprocess.run(
